@@ -24,7 +24,7 @@ def run(ctx):
     r = ctx.tlc("MC_Style", "MC_Style.cfg", consts={"MaxCells": 3, "MaxStyle": 2, "MaxLayout": 1 if q else 2}).require_clean()
     res.add_tlc(r)
     mc_layout(ctx, res, ["apply"], 5 if q else 7)
-    evs, _, _ = run_harness(ctx, "style", "TestVerifStyle", {"random": 1500 if q else 15000, "depth": 4})
+    evs, _, _ = run_harness(ctx, "style", "TestVerifStyle", {"random": 1500 if q else 15000, "depth": 4, "deep": 9})
     evs += other_outputs(ctx, res)
     bad, r2 = vlib.judge(ctx, "T_Term", "T_Term.cfg", evs)
     res.traces = len(evs)
